@@ -226,11 +226,11 @@ Lemma dec_row_enc_with (mask : row -> N) (md : row -> bool) s v r rest :
              mask r < 65536 /\ has (mask r) c02_sfm_actmod = md r) ->
   v <> 0 -> wf_row s r ->
   dec_row s v (enc_row_with mask r ++ rest) =
-  Some (mkRow (r_qid r) (r_id r) (r_parent r) (r_cont r) (r_active r) (r_data r) (if r_qid r =? 0 then false else md r), rest).
+  Some (mkRow (r_qid r) (r_id r) (r_parent r) (r_cont r) (r_active r) (r_data r) (if r_qid r =? 0 then false else md r) [], rest).
 Proof.
   intros HM Hv [Hq [Hk Hr]]. unfold dec_row, enc_row_with.
   destruct (HM r) as (M1 & M2 & M3 & M4 & M5 & M6).
-  destruct r as [q id par cont act data mdf]. cbn [r_qid r_id r_parent r_cont r_active r_data r_mod] in *.
+  destruct r as [q id par cont act data mdf nl]. cbn [r_qid r_id r_parent r_cont r_active r_data r_mod r_nils] in *.
   rd_step. rewrite Hk. cbn [negb].
   destruct (N.eqb_spec q 0) as [E|E].
   - inversion Hr; subst. reflexivity.
@@ -244,7 +244,7 @@ Proof.
     rd_step; rewrite take_n_app; reflexivity.
 Qed.
 
-Lemma dec_row_enc s v r rest : v <> 0 -> wf_row s r -> dec_row s v (enc_row r ++ rest) = Some (r, rest).
+Lemma dec_row_enc s v r rest : v <> 0 -> wf_row s r -> dec_row s v (enc_row r ++ rest) = Some (drop_nils_row r, rest).
 Proof.
   intros Hv W. unfold enc_row. rewrite (dec_row_enc_with mask_of r_mod s v r rest has_mask Hv W).
   destruct W as [_ [_ Hr]]. destruct (N.eqb_spec (r_qid r) 0) as [E|E].
@@ -255,7 +255,7 @@ Qed.
 (* a row written with the old mask decodes with the mark cleared: old rows stay readable, and the
    old writer loses the mark *)
 Lemma dec_row_enc_old s v r rest : v <> 0 -> wf_row s r ->
-  dec_row s v (enc_row_with mask_of_old r ++ rest) = Some (clear_row r, rest).
+  dec_row s v (enc_row_with mask_of_old r ++ rest) = Some (clear_row (drop_nils_row r), rest).
 Proof.
   intros Hv W. rewrite (dec_row_enc_with mask_of_old (fun _ => false) s v r rest has_mask_old Hv W).
   destruct (r_qid r =? 0); reflexivity.
@@ -280,23 +280,25 @@ Proof.
 Qed.
 
 Lemma dec_obj_enc s v : v <> 0 -> forall o, wf_obj s o -> forall f rest, (depth o <= f)%nat ->
-  dec_obj f s v (enc_obj o ++ rest) = Some (o, rest).
+  dec_obj f s v (enc_obj o ++ rest) = Some (drop_nils_obj o, rest).
 Proof.
   intros Hv. induction o as [r ks IH] using obj_ind2. intros W f rest Hd.
   inversion W as [r' ks' Wr Wn Wl Wk]; subst r' ks'.
-  destruct f as [|f]; [cbn in Hd; lia|]. cbn [dec_obj enc_obj]. rewrite <- app_assoc.
+  destruct f as [|f]; [cbn in Hd; lia|]. cbn [dec_obj enc_obj drop_nils_obj]. rewrite <- app_assoc.
   rewrite dec_row_enc by assumption. cbn [bind].
+  change (r_qid (drop_nils_row r)) with (r_qid r).
   destruct (N.eqb_spec (r_qid r) 0) as [E|E].
   - rewrite (Wn E). reflexivity.
   - rd_step. unfold nlen. rewrite Nat2N.id.
-    rewrite (rep_enc (dec_obj f s v) enc_obj (fun x => x) ks rest).
-    + cbn [bind]. rewrite map_id. reflexivity.
+    rewrite (rep_enc (dec_obj f s v) enc_obj drop_nils_obj ks rest).
+    + cbn [bind]. reflexivity.
     + rewrite Forall_forall in *. intros k Hk rest'. apply IH; [exact Hk|apply Wk; exact Hk|].
       cbn [depth] in Hd. pose proof (depth_kid k ks Hk). lia.
 Qed.
 
+(* the emptied-field marks of a CUD row are its c_emptied *)
 Definition wf_cud (s : schema) (c : cud) : Prop :=
-  wf_row s (c_row c) /\ nlen (c_emptied c) < 65536 /\
+  wf_row s (c_row c) /\ r_nils (c_row c) = [] /\ nlen (c_emptied c) < 65536 /\
   Forall (fun i => i < 65536 /\ s_emptied s (r_qid (c_row c)) i = true) (c_emptied c).
 
 
@@ -305,8 +307,10 @@ Proof. unfold nlen. induction l as [|x t IH]; cbn [flat_map length]; [reflexivit
 
 Lemma dec_cud_enc s c rest : wf_cud s c -> dec_cud s c02_codec_last (enc_cud c ++ rest) = Some (c, rest).
 Proof.
-  intros (Wr & Wl & We). unfold dec_cud, enc_cud. rewrite <- app_assoc.
+  intros (Wr & Wn & Wl & We). unfold dec_cud, enc_cud. rewrite <- app_assoc.
   rewrite dec_row_enc by (auto; discriminate). cbn [bind].
+  assert (Ed : drop_nils_row (c_row c) = c_row c) by (destruct c as [[q i p0 ct a d m nl] es]; cbn in *; subst; reflexivity).
+  rewrite Ed.
   change (c02_codec_last <? c02_codec_emptied_since) with false. cbv iota.
   rd_step.
   destruct (N.ltb_spec (nlen (flat_map (be 2) (c_emptied c) ++ rest)) (2 * nlen (c_emptied c))) as [L|L].
@@ -441,10 +445,16 @@ Definition bare_error (e : event) : Prop :=
   nlen (e_errstr e) <= 65535 /\ nlen (e_errname e) <= 65535 /\
   e_arg e = null_obj /\ e_unl e = null_obj /\ e_creates e = [] /\ e_updates e = [].
 
-Theorem codec_roundtrip_partial_proved s e : wf_event s e -> bare_error e -> decode s (enc_event e) = Some e.
+(* the builder put no argument field empty *)
+Definition no_arg_nils (e : event) : Prop := drop_nils_obj (e_arg e) = e_arg e /\ drop_nils_obj (e_unl e) = e_unl e.
+
+Lemma drop_arg_nils_id e : no_arg_nils e -> drop_arg_nils e = e.
+Proof. intros [A U]. unfold drop_arg_nils, with_args. rewrite A, U. destruct e; reflexivity. Qed.
+
+Theorem codec_roundtrip_partial_proved s e : wf_event s e -> bare_error e -> no_arg_nils e -> decode s (enc_event e) = Some e.
 Proof.
-  intros W B. rewrite (decode_encode_proved s e W). unfold stored_form. change c02_mask_carries_actmod with true. cbv iota.
-  destruct (stored_valid e) eqn:SV; [reflexivity|].
+  intros W B NN. rewrite (decode_encode_proved s e W). unfold stored_form. change c02_mask_carries_actmod with true. cbv iota.
+  destruct (stored_valid e) eqn:SV; [rewrite (drop_arg_nils_id e NN); reflexivity|].
   destruct (B SV) as (L1 & L2 & Ea & Eu & Ec & Eup).
   rewrite (cut_str_short _ L1), (cut_str_short _ L2). rewrite Eu. cbn [root null_obj r_qid null_row N.eqb].
   destruct e; cbn in *; subst; reflexivity.
@@ -455,8 +465,9 @@ Proof.
   intros H. constructor; [apply wf_null_row; exact H|reflexivity|reflexivity|constructor].
 Qed.
 
-(* a valid event reads back exactly, the (de)activation marks of its rows included *)
-Theorem valid_event_roundtrip_proved s e : wf_event s e -> stored_valid e = true -> decode s (enc_event e) = Some e.
+(* a valid event reads back exactly (the (de)activation marks of its rows included), up to the
+   emptied-field marks of argument rows *)
+Theorem valid_event_roundtrip_proved s e : wf_event s e -> stored_valid e = true -> decode s (enc_event e) = Some (drop_arg_nils e).
 Proof.
   intros W SV. rewrite (decode_encode_proved s e W). unfold stored_form. rewrite SV. reflexivity.
 Qed.
@@ -468,25 +479,25 @@ Theorem activation_flags_read_back_proved s e : wf_event s e -> stored_valid e =
             map deactivated (e_updates d) = map deactivated (e_updates e) /\
             map (fun c => r_mod (c_row c)) (e_creates d) = map (fun c => r_mod (c_row c)) (e_creates e).
 Proof.
-  intros W SV. exists e. split; [apply valid_event_roundtrip_proved; assumption|]. repeat split.
+  intros W SV. exists (drop_arg_nils e). split; [apply valid_event_roundtrip_proved; assumption|]. repeat split.
 Qed.
 
 (* the writer before 35e511a40 (mask without the bit): the mark of a row is lost - an update that
    (de)activates a record decodes as a plain update; and rows it wrote still decode *)
 Theorem activation_mark_lost_with_old_mask_proved :
-  (forall s v r rest, v <> 0 -> wf_row s r -> dec_row s v (enc_row_with mask_of_old r ++ rest) = Some (clear_row r, rest))
+  (forall s v r rest, v <> 0 -> wf_row s r -> dec_row s v (enc_row_with mask_of_old r ++ rest) = Some (clear_row (drop_nils_row r), rest))
   /\ exists r, wf_row sch_any r /\ activated (mkCud r []) || deactivated (mkCud r []) = true
                /\ activated (mkCud (clear_row r) []) || deactivated (mkCud (clear_row r) []) = false.
 Proof.
   split; [exact dec_row_enc_old|].
-  exists (mkRow 300 200001 0 0 false [1; 2] true). split; [|split; reflexivity].
+  exists (mkRow 300 200001 0 0 false [1; 2] true []). split; [|split; reflexivity].
   unfold wf_row. cbn [r_qid r_id r_parent r_cont r_data N.eqb].
   split; [lia|]. split; [reflexivity|]. split; [lia|]. split; [lia|]. split; [lia|]. split; [intros _; reflexivity|reflexivity].
 Qed.
 
 (* an event that is not valid but still carries the builder's argument object: not stored (C02-F4) *)
 Definition error_args_witness : event :=
-  mkEvent 1 1 5 7 9 1000 false 0 0 false [120] [116; 46; 99] [] (Obj (mkRow 301 1 0 0 true [1; 2] false) []) null_obj [] [].
+  mkEvent 1 1 5 7 9 1000 false 0 0 false [120] [116; 46; 99] [] (Obj (mkRow 301 1 0 0 true [1; 2] false []) []) null_obj [] [].
 
 (* an error text of 65536 bytes: cut to 65535 (C02-F6) *)
 Definition long_error_witness : event :=
@@ -521,19 +532,48 @@ Qed.
 (* ---------- the object PutPlog returns; re-encoding ---------- *)
 Definition short_texts (e : event) : Prop := nlen (e_errstr e) <= 65535 /\ nlen (e_errname e) <= 65535.
 
-Lemma stored_returned e : short_texts e -> stored_form e = returned_form_with true e.
+Lemma stored_returned e : short_texts e -> stored_form e = returned_form_with true true e.
 Proof.
   intros [L1 L2]. unfold stored_form, returned_form_with. change c02_mask_carries_actmod with true. cbv iota. cbn [andb].
   destruct (stored_valid e) eqn:SV; cbn [negb]; [reflexivity|].
   rewrite (cut_str_short _ L1), (cut_str_short _ L2). reflexivity.
 Qed.
 
-(* reading back gives the object PutPlog returned, whatever the builder left in an invalid event *)
-Theorem returned_object_reads_back_proved clears s e :
-  clears = true -> wf_event s e -> short_texts e ->
-  decode s (enc_event e) = Some (returned_form_with clears e).
+(* reading back gives the object PutPlog returned, whatever the builder left in an invalid event and
+   whichever argument fields it put empty *)
+Theorem returned_object_reads_back_proved clears drops s e :
+  clears = true -> drops = true -> wf_event s e -> short_texts e ->
+  decode s (enc_event e) = Some (returned_form_with clears drops e).
 Proof.
-  intros -> W T. rewrite (decode_encode_proved s e W). f_equal. apply stored_returned; assumption.
+  intros -> -> W T. rewrite (decode_encode_proved s e W). f_equal. apply stored_returned; assumption.
+Qed.
+
+(* the object PutPlog returns lists the same emptied fields as the stored form: none on argument rows *)
+Theorem returned_lists_stored_fields_proved clears drops e :
+  clears = true -> drops = true ->
+  e_arg (returned_form_with clears drops e) = e_arg (stored_form e) /\ e_unl (returned_form_with clears drops e) = e_unl (stored_form e).
+Proof.
+  intros -> ->. unfold stored_form, returned_form_with. change c02_mask_carries_actmod with true. cbv iota. cbn [andb].
+  destruct (stored_valid e); cbn [negb]; split; reflexivity.
+Qed.
+
+(* before 75b678c2b (drops = false) the returned object kept the marks the stored form does not have (C02-F8) *)
+Theorem returned_keeps_arg_nils_refuted_proved :
+  exists e, wf_event sch_any e /\ stored_valid e = true /\ e_arg (returned_form_with true false e) <> e_arg (stored_form e).
+Proof.
+  exists (mkEvent 300 1 5 7 9 1000 false 0 0 true [] [] [] (Obj (mkRow 301 1 0 0 true [1; 2] false [1; 2]) []) null_obj [] []).
+  split; [|split; [reflexivity|vm_compute; congruence]].
+  unfold wf_event.
+  cbn [e_qid e_part e_poffs e_ws e_woffs e_reg e_sync e_dev e_syncat e_valid e_errstr e_errname e_errbytes e_arg e_unl e_creates e_updates].
+  change (stored_valid _) with true. cbv iota.
+  split; [lia|]. split; [lia|]. split; [reflexivity|]. split; [reflexivity|].
+  do 5 (split; [lia|]). split; [split; reflexivity|].
+  do 4 (split; [reflexivity|]).
+  split; [|split; [apply wf_null_obj; reflexivity|]].
+  - constructor; [|intros H; discriminate|reflexivity|constructor].
+    unfold wf_row. cbn [r_qid r_id r_parent r_cont r_data N.eqb].
+    split; [lia|]. split; [reflexivity|]. split; [lia|]. split; [lia|]. split; [lia|]. split; [intros _; reflexivity|reflexivity].
+  - split; [reflexivity|]. split; [constructor|]. split; [reflexivity|constructor].
 Qed.
 
 (* with the original name kept, encoding an event again is encoding it *)
@@ -545,12 +585,23 @@ Qed.
 Lemma cut_str_idem s : cut_str (cut_str s) = cut_str s.
 Proof. apply cut_str_short. pose proof (cut_str_len s). lia. Qed.
 
+Lemma enc_drop_nils o : enc_obj (drop_nils_obj o) = enc_obj o.
+Proof.
+  induction o as [r ks IH] using obj_ind2. cbn [drop_nils_obj enc_obj].
+  change (enc_row (drop_nils_row r)) with (enc_row r). change (r_qid (drop_nils_row r)) with (r_qid r).
+  destruct (r_qid r =? 0); [reflexivity|]. unfold nlen. rewrite map_length. f_equal. f_equal.
+  induction IH as [|k t Hk Ht IHt]; cbn [map flat_map]; [reflexivity|]. rewrite Hk, IHt. reflexivity.
+Qed.
+
 (* the stored form encodes to the same bytes *)
 Lemma enc_stored_form e : enc_event (stored_form e) = enc_event e.
 Proof.
-  unfold stored_form. change c02_mask_carries_actmod with true. cbv iota. destruct (stored_valid e) eqn:SV; [reflexivity|].
-  unfold enc_event, stored_valid in *. cbn [e_qid e_part e_poffs e_ws e_woffs e_reg e_sync e_dev e_syncat e_valid e_errstr e_errname e_errbytes e_arg e_unl e_creates e_updates].
-  rewrite SV. unfold enc_str. rewrite !cut_str_idem. cbn [root null_obj r_qid null_row N.eqb]. reflexivity.
+  unfold stored_form. change c02_mask_carries_actmod with true. cbv iota. destruct (stored_valid e) eqn:SV.
+  - unfold enc_event, drop_arg_nils, with_args, stored_valid in *.
+    cbn [e_qid e_part e_poffs e_ws e_woffs e_reg e_sync e_dev e_syncat e_valid e_errstr e_errname e_errbytes e_arg e_unl e_creates e_updates].
+    rewrite SV. rewrite !enc_drop_nils. reflexivity.
+  - unfold enc_event, stored_valid in *. cbn [e_qid e_part e_poffs e_ws e_woffs e_reg e_sync e_dev e_syncat e_valid e_errstr e_errname e_errbytes e_arg e_unl e_creates e_updates].
+    rewrite SV. unfold enc_str. rewrite !cut_str_idem. cbn [root null_obj r_qid null_row N.eqb]. reflexivity.
 Qed.
 
 (* ... hence a decoded event re-encodes to the bytes it was decoded from *)
